@@ -151,6 +151,19 @@ Definition state_with_root (st : state) (T : rtree) : Prop :=
 Definition start_state (T : rtree) : state :=
   mk_state [mk_slot true 0 T] [Some (mk_hnd 0 []); None; None; None; None].
 
+(* a whole run, observed at the root: Relations::to_string() after the last operation *)
+Definition run_text (v : variant) (init : initspec) (ops : list op) : res str :=
+  match init_state v init with
+  | Ok st => match run_ops v ops st with
+             | Ok st' => root_text st'
+             | Err e => Err e | Panic n => Panic n | OutOfFuel => OutOfFuel
+             end
+  | Err e => Err e | Panic n => Panic n | OutOfFuel => OutOfFuel
+  end.
+(* does a text read back (strictly, substitution variables allowed) without error? *)
+Definition reads_clean (s : str) : bool :=
+  match parse_relaxed s true with Ok (_, O) => true | _ => false end.
+
 (* ------------------------------------------------------------------ the whole property *)
 (* Domain: the texts an operand is made of are non-empty runs of identifier characters
    (package names, versions, qualifiers, architectures, profile names). *)
